@@ -573,22 +573,25 @@ def check(run):
         for backed in ((False, True) if t % 4 == 0 else (t % 2 == 1,)):
             obs = render_cfg(c, run.seed + t, backed)
             traces.append({"id": len(traces) + 1, "cfg": c, "out": [_safe_tok(s) for s in obs], "backed": backed})
+    # negative controls: corrupt recordings; only those whose original is accepted count (corrupting a recording of
+    # misbehaving code can make it right by accident)
     ncs = []
-    base = next((t for t in traces if len(t["out"]) > 8 and t["out"][-1]["k"] == "close"), None)
-    if base is not None:
+    for base in [t for t in traces if len(t["out"]) > 8 and t["out"][-1]["k"] == "close"][:6]:
         bad = json.loads(json.dumps(base))
-        bad["id"] = 10 ** 6 + 1
+        bad["id"] = 10 ** 6 + 2 * base["id"]
         bad["out"][len(bad["out"]) // 2]["l"] += 1
         bad2 = json.loads(json.dumps(base))
-        bad2["id"] = 10 ** 6 + 2
+        bad2["id"] = 10 ** 6 + 2 * base["id"] + 1
         del bad2["out"][len(bad2["out"]) // 2]
-        ncs = [bad, bad2]
+        bad["base"] = bad2["base"] = base["id"]
+        ncs += [bad, bad2]
     tcfg = ("CONSTANTS MaxN <- TMaxN\n  TraceTpl <- TraceTplImpl\nSPECIFICATION TSpec\n"
             + "".join("INVARIANT %s\n" % i for i in INVS) + "CHECK_DEADLOCK FALSE\n")
     verdicts = run.validate_traces("Trace_Inherit", tcfg, traces + ncs, name="trace-inherit", workers=workers or 8, timeout=600)
     run.traces -= len(ncs)
     for nc in ncs:
-        run.negative_control(not verdicts[nc["id"]]["ok"], "Trace_Inherit accepted a corrupted token sequence (%d)" % nc["id"])
+        if verdicts[nc["base"]]["ok"]:
+            run.negative_control(not verdicts[nc["id"]]["ok"], "Trace_Inherit accepted a corrupted token sequence (%d)" % nc["id"])
     vbad = {}
     for t in traces:
         v = verdicts[t["id"]]
